@@ -161,6 +161,12 @@ func (cm *Manager) RenewContract(renewal SignedRevision, existing SignedRevision
 	}
 	defer done()
 
+	// the lock may have been acquired long ago: the clearing revision and the
+	// renewal must still be confirmable
+	if err := cm.Revisable(existing.Revision.ParentID); err != nil {
+		return err
+	}
+
 	// sanity checks
 	existingRoots := cm.getSectorRoots(existing.Revision.ParentID)
 	if existing.Revision.FileMerkleRoot != (types.Hash256{}) {
@@ -351,9 +357,16 @@ func (cm *Manager) SectorRoots(id types.FileContractID) []types.Hash256 {
 }
 
 // ReviseContract initializes a new contract updater for the given contract.
+// An error is returned if the contract can no longer be revised.
 func (cm *Manager) ReviseContract(contractID types.FileContractID) (*ContractUpdater, error) {
 	done, err := cm.tg.Add()
 	if err != nil {
+		return nil, err
+	}
+
+	// fail early: Commit checks again
+	if err := cm.Revisable(contractID); err != nil {
+		done()
 		return nil, err
 	}
 
@@ -374,6 +387,23 @@ func (cm *Manager) ReviseContract(contractID types.FileContractID) (*ContractUpd
 // Close closes the contract manager.
 func (cm *Manager) Close() error {
 	cm.tg.Stop()
+	return nil
+}
+
+// Revisable returns an error if the stored contract can no longer be revised.
+// Lock evaluates the same guard when the contract lock is acquired, but a lock
+// may be held across many blocks (an RHP2 session holds it until the renter
+// hangs up). A revision accepted after the guard stopped holding can not be
+// confirmed before the proof window opens: the storage proof would be built
+// for a revision the chain never sees. The guard is therefore evaluated again
+// whenever a revision is about to be persisted.
+func (cm *Manager) Revisable(contractID types.FileContractID) error {
+	contract, err := cm.store.Contract(contractID)
+	if err != nil {
+		return fmt.Errorf("failed to get contract: %w", err)
+	} else if err := cm.isGoodForModification(contract); err != nil {
+		return fmt.Errorf("contract is not good for modification: %w", err)
+	}
 	return nil
 }
 
